@@ -858,6 +858,42 @@ func TestC19(t *testing.T) {
 		}
 	}
 	eh.done(true)
+	// strand filters on nested lists: every list of 1..3 children drawn from single-strand and mixed-strand
+	// sub-lists (no complement inside a complement), under join and order, plain and complemented where that is
+	// defined; forward, reverse and their negations
+	en := enumPart(t, c19Prop, st, "nested-strands")
+	{
+		kids := func(o int) []Loc {
+			return []Loc{lrg(o, o+2), lco(lrg(o, o+2)), lpt(o), ljn(lrg(o, o+1), lco(lrg(o+2, o+3))), lor(lco(lpt(o)), lrg(o+2, o+3)),
+				ljn(lrg(o, o+1), lrg(o+2, o+3)), lco(ljn(lrg(o, o+1), lrg(o+2, o+3))), lor(lco(lrg(o, o+1)), lco(lpt(o+2))), lbt(o + 1)}
+		}
+		var lists [][]Loc
+		for _, a := range kids(0) {
+			lists = append(lists, []Loc{a})
+			for _, b := range kids(4) {
+				lists = append(lists, []Loc{a, b})
+				for _, cc := range kids(8) {
+					lists = append(lists, []Loc{a, b, cc})
+				}
+			}
+		}
+		exprs := []c19Expr{{Op: "fwd"}, {Op: "rev"}, {Op: "not", Args: []c19Expr{{Op: "fwd"}}}, {Op: "and", Args: []c19Expr{{Op: "not", Args: []c19Expr{{Op: "fwd"}}}, {Op: "not", Args: []c19Expr{{Op: "rev"}}}}}}
+		for _, l := range lists {
+			var table []Feat
+			for _, w := range []Loc{ljn(l...), lor(l...), lor(ljn(l...), lrg(12, 13)), ljn(lor(l...), lco(lrg(12, 13)))} {
+				w, _ = fromGts(toGts(w))
+				if hasResidue(den(w)) {
+					table = append(table, Feat{Key: "gene", Loc: w})
+				}
+			}
+			for i := range exprs {
+				if !en.try(c19Case{Mode: "algebra", Table: table, Expr: &exprs[i]}) {
+					return
+				}
+			}
+		}
+	}
+	en.done(true)
 	e := enumPart(t, c19Prop, st, "order-triples")
 	pool := []Loc{lpt(1), lpt(2), lbt(2), lrg(1, 3), lprg(1, 3, true, false), lprg(1, 3, true, true), lrg(2, 4), lrg(1, 4), lam(1, 3),
 		lco(lrg(1, 3)), ljn(lrg(0, 1), lrg(3, 5)), ljn(lrg(3, 5), lrg(0, 1)), lor(lpt(0), lrg(2, 4)), lco(ljn(lrg(1, 2), lrg(4, 5))), ljn(lpt(1), lco(lrg(3, 4)))}
